@@ -1,6 +1,10 @@
 package proxy
 
-import "go.temporal.io/server/client/history"
+import (
+	"go.temporal.io/server/client/history"
+
+	vsimrt "vsim/simrt"
+)
 
 // VsimRing gives the harness (package vsim/worlds) access to the unexported proxy-id
 // ring buffer. This file is added to the package through the build overlay only.
@@ -21,4 +25,26 @@ func (r *VsimRing) Discard(n int) { r.b.Discard(n) }
 // Shape returns (capacity, head, size, startProxyID).
 func (r *VsimRing) Shape() (int, int, int, int64) {
 	return len(r.b.entries), r.b.head, r.b.size, r.b.startProxyID
+}
+
+// VsimIntraLinks lists the intra-proxy senders and receivers registered in a shard
+// manager's intra-proxy manager as "peer|target|source" strings (harness introspection).
+func VsimIntraLinks(sm ShardManager) (senders, receivers []string) {
+	m := sm.GetIntraProxyManager()
+	if m == nil {
+		return nil, nil
+	}
+	vsimrt.RLock(-1, &m.streamsMu)
+	defer vsimrt.RUnlock(&m.streamsMu)
+	for peer, ps := range m.peers {
+		for k := range ps.senders {
+			senders = append(senders, peer+"|"+ClusterShardIDtoShortString(k.targetShard)+"|"+ClusterShardIDtoShortString(k.sourceShard))
+		}
+		for k, r := range ps.receivers {
+			if r != nil && r.streamClient != nil {
+				receivers = append(receivers, peer+"|"+ClusterShardIDtoShortString(k.targetShard)+"|"+ClusterShardIDtoShortString(k.sourceShard))
+			}
+		}
+	}
+	return
 }
